@@ -111,6 +111,53 @@ CASES = [
 ]
 
 
+# ---- end-to-end: deterministic torchphysics calls, engine (concrete payloads) vs real torch -------------
+
+
+def _tp_cases():
+    import torchphysics as tp
+    from torchphysics.problem.spaces.points import Points
+
+    X2, X1, X3, T1 = tp.spaces.R2("x"), tp.spaces.R1("x"), tp.spaces.R3("x"), tp.spaces.R1("t")
+
+    def pts(t, sp):
+        return Points(t, sp)
+
+    q2 = lambda a, b, **_: torch.cat((a, b * 2.0, a - b), dim=0)
+
+    def par():
+        return tp.domains.Parallelogram(X2, [0.1, -0.2], [1.3, 0.1], [-0.2, 0.9])
+
+    def tri():
+        return tp.domains.Triangle(X2, [0.0, 0.0], [1.0, 0.2], [0.3, 0.9])
+
+    def circ(dep=False):
+        return tp.domains.Circle(X2, [0.25, 0.1], (lambda t: 0.5 + 0.25 * t) if dep else 0.75)
+
+    P2 = lambda a, **_: Points(a[:, :1] * 2 - 1, T1)
+    out = [
+        ("tp_circle_contains", lambda a, b, **k: circ()._contains(pts(q2(a, b), X2)).double()),
+        ("tp_circle_dep_contains", lambda a, b, **k: circ(True)._contains(pts(a, X2), P2(a)).double()),
+        ("tp_par_contains_bcontains", lambda a, b, **k: par()._contains(pts(q2(a, b), X2)).double() + 2 * par().boundary._contains(pts(q2(a, b), X2)).double()),
+        ("tp_tri_contains_bcontains", lambda a, b, **k: tri()._contains(pts(q2(a, b), X2)).double() + 2 * tri().boundary._contains(pts(q2(a, b), X2)).double()),
+        ("tp_volumes", lambda a, **k: torch.cat((par().volume(), tri().volume(), circ(True).volume(P2(a)), par().boundary.volume(), tri().boundary.volume(), circ().boundary.volume()), dim=0)),
+        ("tp_bboxes", lambda a, **k: torch.cat((par().bounding_box(), tri().bounding_box(), circ(True).bounding_box(P2(a)), (par() + circ()).bounding_box(), (par() & circ()).bounding_box()))),
+        ("tp_grids", lambda **k: torch.cat((par().sample_grid(n=4).as_tensor[:2], circ().sample_grid(n=3).as_tensor, par().boundary.sample_grid(n=5).as_tensor, tri().boundary.sample_grid(n=4).as_tensor, circ().boundary.sample_grid(n=3).as_tensor), dim=0)),
+        ("tp_normals", lambda **k: torch.cat((par().boundary.normal(par().boundary.sample_grid(n=4)), tri().boundary.normal(tri().boundary.sample_grid(n=5)), circ().boundary.normal(circ().boundary.sample_grid(n=3))), dim=0)),
+        ("tp_bool_contains", lambda a, b, **k: (par() - circ())._contains(pts(q2(a, b), X2)).double() + 2 * (par() + circ()).boundary._contains(pts(q2(a, b), X2)).double() + 4 * (par() & tri())._contains(pts(q2(a, b), X2)).double()),
+        ("tp_translate_rotate_contains", lambda a, b, **k: tp.domains.Translate(par(), [0.3, -0.1])._contains(pts(q2(a, b), X2)).double() + 2 * tp.domains.Rotate.from_angles(par(), 0.4)._contains(pts(q2(a, b), X2)).double()),
+        ("tp_interval", lambda a, **k: torch.cat((tp.domains.Interval(X1, -0.5, 1.5).sample_grid(n=3).as_tensor, tp.domains.Interval(X1, -0.5, 1.5).boundary.sample_grid(n=3).as_tensor, tp.domains.Interval(X1, 0.2, 0.7)._contains(Points(a[:, :1], X1)).double()), dim=0)),
+        ("tp_sphere", lambda a, **k: torch.cat((tp.domains.Sphere(X3, [0.0, 0.1, 0.2], 0.8).volume().reshape(-1), tp.domains.Sphere(X3, [0.0, 0.1, 0.2], 0.8).boundary.volume().reshape(-1), tp.domains.Sphere(X3, [0.0, 0.1, 0.2], 0.8)._contains(Points(torch.cat((a, a[:, :1]), dim=1), X3)).double().reshape(-1), tp.domains.Sphere(X3, [0.0, 0.1, 0.2], 0.8).boundary.sample_grid(n=4).as_tensor.reshape(-1)))),
+    ]
+    return out
+
+
+try:
+    CASES += _tp_cases()
+except Exception as _e:  # torchphysics not importable: kernel-level cases still run
+    CASES.append(("tp_import", lambda **k: (_ for _ in ()).throw(_e)))
+
+
 def run(verbose=False):
     """-> list of failure strings"""
     sys.path  # noqa
@@ -122,13 +169,15 @@ def run(verbose=False):
     fails = []
     for name, fn in CASES:
         inp = _inputs()
+        tp_case = name.startswith("tp_")
+        if tp_case:  # torchphysics casts shape parameters to float32: feed float32 and compare at float32 accuracy
+            inp = {k: (v.float() if v.dtype.is_floating_point else v) for k, v in inp.items()}
         try:
             want = fn(**{k: v.clone() for k, v in inp.items()})
         except Exception as e:  # the expression itself is wrong for this torch
             fails.append("%s: reference raised %r" % (name, e))
             continue
-        ctx = PathCtx()
-        ctx.no_particles = True
+        ctx = PathCtx()  # concrete witnesses steer int()/bool() of defined symbols (sqrt 2, ...) down the true branch
         T.set_ctx(ctx)
         try:
             with S.patched_torch():
@@ -141,7 +190,7 @@ def run(verbose=False):
             want_r = want.double() if want.dtype != torch.bool else want.double()
             if tuple(got_r.shape) != tuple(want_r.shape):
                 fails.append("%s: shape %s vs %s" % (name, tuple(got_r.shape), tuple(want_r.shape)))
-            elif not torch.allclose(got_r, want_r, rtol=1e-9, atol=1e-9):
+            elif not torch.allclose(got_r, want_r, rtol=1e-9 if not tp_case else 2e-5, atol=1e-9 if not tp_case else 2e-5):
                 fails.append("%s: max abs diff %.3e" % (name, float((got_r - want_r).abs().max())))
             elif verbose:
                 print("ok  ", name)
